@@ -182,7 +182,14 @@ structure Pieces where
   /-- the tuple term `next(var_global_flat_without_anon + [var_l])` -/
   term2 : Term
 
-def pieces (sign : Sign) (args : List Term) (ext : Bool) (ap : SumAgg.APred) (pos : Nat) (chainP nextP : Pred) :
+/-- `UniqueVariables(stm).make_unique(PREV)`: the predecessor variable, not used in the statement
+(fix recorded in known_findings.json `fixed:`; before it the name was `__PREV` whatever the statement used) -/
+def prevFor (stm : Stm) : Term :=
+  match (UniqueVars.init stm).makeUnique "__PREV" with
+  | some (v, _) => .var v
+  | none => PREV
+
+def pieces (PREV : Term) (sign : Sign) (args : List Term) (ext : Bool) (ap : SumAgg.APred) (pos : Nat) (chainP nextP : Pred) :
     Except String Pieces :=
   match args[pos]? with
   | none => .error "IndexError: trigger_args[trigger_index]"
@@ -240,7 +247,8 @@ def elemStep (atmost : List SumAgg.APred) (gs : Groups) (a : Addr) : M (List BAg
                 let c1 := removeFirstLit (sign, .sym (.fn name args ext)) elem.2
                 let (rules, chainP, nextP) ← requestRules ap pos
                 emit rules
-                let p ← liftE (pieces sign args ext ap pos chainP nextP)
+                let PREV : Term := match s.cur[a.stm]? with | some stm => prevFor stm | none => PREV
+                let p ← liftE (pieces PREV sign args ext ap pos chainP nextP)
                 let c2 := c1 ++ [p.chainLit]
                 modify fun s => { s with cur := grp.foldl (writeCond c2) s.cur, nElems := s.nElems + 1 }
                 pure [(Term.bin .minus w PREV :: restTerms ++ [p.term1], c2 ++ [p.nextPos]),
@@ -304,7 +312,8 @@ def replaceOptimize (atmost : List SumAgg.APred) (m : Stm) : M (List Stm) :=
             | some (.lit (sign, .sym (.fn name args ext))) =>
               let b1 := removeFirstBLit (.lit (sign, .sym (.fn name args ext))) body
               let (rules, chainP, nextP) ← requestRules ap pos
-              let pc ← liftE (pieces sign args ext ap pos chainP nextP)
+              let PREV : Term := prevFor m
+              let pc ← liftE (pieces PREV sign args ext ap pos chainP nextP)
               let b2 := b1 ++ [BLit.lit pc.chainLit]
               let diff : Term := .bin .minus (.var v) PREV
               let weight1 : Term := if w.isVar then diff else .un .minus diff
